@@ -95,6 +95,48 @@ macro_rules! fill_edge {
 fill_edge!(fill_edge_f64, f64);
 fill_edge!(fill_edge_f32, f32);
 
+/// two consecutive edges a -> b -> c of one ring: each edge is handled on its own (a collapsed edge
+/// anywhere in the ring creates nothing, the others one pair each)
+fn fill_two_edges_body<F: Float>() {
+    let n = if P::N > 3 { 3 } else { P::N };
+    let a = IP::any(n);
+    let b = IP::any(n);
+    let c = IP::any(n);
+    let ring = LineString(vec![a.c::<F>(), b.c::<F>(), c.c::<F>()]);
+    let mut bbox = inf_box::<F>();
+    let mut q: BinaryHeap<Rc<SweepEvent<F>>> = BinaryHeap::new();
+    process_polygon(&ring, true, 1, &mut q, &mut bbox, true);
+    let v = q.into_vec();
+    let (e1, e2) = (a != b, b != c);
+    assert!(v.len() == 2 * (e1 as usize + e2 as usize), "exactly one event pair per non-degenerate edge, wherever the collapsed edges are in the ring");
+    let mut i = 0;
+    while i < v.len() {
+        let o = v[i].get_other_event().unwrap();
+        assert!(v[i].point != o.point, "no event pair of zero length");
+        std::mem::forget(o);
+        i += 1;
+    }
+    // box = hull of the start points of the non-degenerate edges
+    if e1 || e2 {
+        let (pa, pb): (Coord<F>, Coord<F>) = (a.c(), b.c());
+        let (x0, x1) = if e1 && e2 { (pa.x.min(pb.x), pa.x.max(pb.x)) } else if e1 { (pa.x, pa.x) } else { (pb.x, pb.x) };
+        let (y0, y1) = if e1 && e2 { (pa.y.min(pb.y), pa.y.max(pb.y)) } else if e1 { (pa.y, pa.y) } else { (pb.y, pb.y) };
+        assert!(bbox.min.x == x0 && bbox.max.x == x1 && bbox.min.y == y0 && bbox.max.y == y1, "the box is the hull of the start points of the non-degenerate edges");
+    } else {
+        assert!(bbox == inf_box::<F>(), "only collapsed edges: the box stays at its initial value");
+    }
+    kani::cover!(e1 && !e2, "repeated vertex in the middle of a ring");
+    kani::cover!(!e1 && e2, "repeated first vertex");
+    kani::cover!(e1 && e2 && a == c, "there and back");
+    std::mem::forget((v, ring));
+}
+#[kani::proof]
+#[kani::unwind(6)]
+#[kani::stub(robust::orient2d, super::super::verif_kani::common::orient2d_stub)]
+fn fill_two_edges_f64() {
+    fill_two_edges_body::<f64>()
+}
+
 // ----------------------------------------------------------------------------------- L-FILL-IDS
 // `process_polygon` replaced by a recorder: the ring/tag/id protocol of fill_queue's own loops.
 #[derive(Clone, Copy)]
